@@ -1,5 +1,6 @@
 """C15 - run() ends at quiescence, reports failures and keeps simulations isolated."""
 import copy
+import json
 import sys
 import threading
 from hypothesis import strategies as st
@@ -76,13 +77,24 @@ def cases(draw, tier):
                     if i == 0 or draw(st.booleans()):
                         n += 1
                         r['steps'].insert(draw(st.integers(0, len(r['steps']))), {'op': 'raise', 'eid': n, 'cls': draw(st.sampled_from(['E', 'K', 'A']))})
+                if draw(st.integers(0, 2)) == 0 and 'inf' not in json.dumps(p['roots']):
+                    p['till'] = 1e12            # a deadline that is never reached must not change how a failure is reported
                 ops.append({'k': 'fail', 'prog': p})
+                if draw(st.integers(0, 2)) == 0:
+                    # the same simulation without the failures afterwards (it uses the same date condition objects)
+                    q = copy.deepcopy(p)
+                    for r in q['roots']:
+                        r['steps'] = [s_ for s_ in r['steps'] if s_['op'] != 'raise']
+                    q.pop('till', None)
+                    ops.append({'k': 'ok', 'prog': q})
             elif k == 'leak':
                 p = draw(small_prog(tier, roots=(1, 2)))
                 for r in p['roots']:
                     r['steps'] = [s for s in r['steps'] if s['op'] in c01.TIMED and s['op'] not in ('eternity', 'at_lt', 'at_eq')]
                 v = draw(st.sampled_from(RET_VALUES))
                 p['roots'][-1]['steps'].append({'op': 'return', 'v': v})
+                if draw(st.integers(0, 2)) == 0 and 'inf' not in json.dumps(p['roots']):
+                    p['till'] = 1e12
                 ops.append({'k': 'leak', 'prog': p, 'v': v})
             elif k == 'nested':
                 outer = draw(small_prog(tier, roots=(1, 2)))
@@ -244,6 +256,8 @@ class C15(Check):
                 self.after_run(out, 'probe')
                 continue
             prog = op['prog']
+            if k in ('fail', 'leak') and prog.get('till') is not None and (prog['till'] < 1e12 or 'inf' in json.dumps(prog['roots'])):
+                raise InvalidCase('the deadline of a failing / leaking run lies beyond everything it does')
             it, oc, exc, p = execute(prog, Probe(b_step=5000, b_total=80000), hooks={'date_cache': dates})
             out.evals += 1
             self.after_run(out, k)
@@ -280,18 +294,24 @@ class C15(Check):
                         out.fail('quiescence', 'gc_run_incomplete', 'run #%d calling gc.collect(): activities did not complete' % n)
             elif k == 'fail':
                 special += 1
-                excs = [e for e in it.log if e[3] == 'exc' and e[1] in names and e[0] <= it.end_seq]
+                excs = [e for e in it.log if e[3] == 'exc' and e[1] in names and e[0] <= it.end_seq and e[5] and e[5][0] == 'prog']
                 if not excs:
                     special -= 1          # no root reached its failure (it waits for a date that never comes)
                     if oc != 'ok':
                         out.fail('outcome', 'ok_run_%s:%s' % (oc, type(exc).__name__), 'run #%d: %r' % (n, exc))
                 elif oc != 'exc':
                     out.fail('failure', 'not_raised', 'run #%d: roots fail but run() ended %s' % (n, oc))
+                elif prog.get('till') is not None and it.describe(exc) in [e[5] for e in excs if e[4] == excs[0][4]]:
+                    pass        # (roots under a deadline are siblings in a scope: of several failures in one step any may be first)
                 elif not excs or it.describe(exc) != excs[0][5]:
                     out.fail('failure', 'wrong_exception', 'run #%d raised %r, first escaping failure was %r' % (
                         n, it.describe(exc), excs[0][5] if excs else None))
                 else:
                     late = [e for e in it.log if excs[0][0] < e[0] <= it.end_seq and e[3] != 'fin']
+                    if prog.get('till') is not None:
+                        # with a deadline the roots are children of one scope: the failure aborts the others within
+                        # the same time step (C05), activities that already had their turn queued may still run in it
+                        late = [e for e in late if e[4] != excs[0][4]]
                     if late:
                         out.fail('failure', 'ran_on_after_failure', 'run #%d: %r after the failure' % (n, late[0][1:5]))
             elif k == 'leak':
